@@ -20,7 +20,14 @@ SYMS = ["m", "s", "kg", "A", "K", "mol", "cd", "g", "x", "y", "base", "Hz", "aB"
 
 
 # ----------------------------------------------------------------------------- helpers
+# has this PROCESS sent any request to the library's session state yet?  A history marked
+# ["fresh"] (first step) is one a user's script starts with: it runs in a process in which nothing
+# - no reset, no clear_unit_definitions - has happened before (clean room / `./check --replay`)
+PROCESS = {"virgin": True}
+
+
 def reset(q):
+    PROCESS["virgin"] = False
     q.reset_default_configuration()
     q.reset_correlations()
     q.clear_unit_definitions()
@@ -1061,15 +1068,23 @@ def run_history(q, hist):
            ["eval", tree]                        build the formula, read the unit of the result
            ["eval", tree, {"nojudge": true}]     ... evaluated as part of the past, not judged
                                                  (e.g. under definitions, outside C08's domain)
+           ["fresh"]  (first step only)          the history starts in a NEW PROCESS: the harness
+                                                 does not reset / clear before it (it does when
+                                                 the process has been used: same meaning)
     Returns a list of (tree, defs_h snapshot, request history so far, observation, step index);
     defs_h holds the harness's own record of the accepted definitions only."""
-    reset(q)
+    if hist and list(hist[0]) == ["fresh"] and PROCESS["virgin"]:
+        PROCESS["virgin"] = False       # nothing before the first step of the history
+    else:
+        reset(q)
     defs_h = collections.OrderedDict()
     reqs = []
     out = []
     tainted = False
     log = []
     for i, st in enumerate(hist):
+        if st[0] == "fresh":
+            continue
         if st[0] == "define":
             _, name, ustr, uj = st
             q.define_unit(name, ustr)
@@ -1133,6 +1148,8 @@ def describe_prefix(prefix):
             out.append("rejected define_unit({!r}, {!r})".format(st[1], st[2]))
         elif st[0] == "style":
             out.append("unit style " + ("FRACTION" if st[1] else "EXPONENTS"))
+        elif st[0] == "fresh":
+            out.append("in a new process")
         else:
             out.append("clear")
     return ", ".join(out)
